@@ -81,6 +81,35 @@ Proof.
   apply (rerun_consistent c0 empty_env zero 0 s wf_c0 junk_free_empty clocked_empty Re M).
 Qed.
 
+(* ---------- the variation that keeps the condition variable between two passes ---------- *)
+(* the master prefers the one-element [now] list, i.e. master_step_alt, whenever it applies *)
+Fixpoint greedy_alt (c : cfg) (fuel : nat) (s : state) : list (nat * list nat) :=
+  match fuel with
+  | 0 => []
+  | S f =>
+      match step c s 0 [0] with
+      | Some s' => (0, [0]) :: greedy_alt c f s'
+      | None =>
+          match first_step c s (seq 0 (S (nworkers c))) with
+          | Some (tid, now, s') => (tid, now) :: greedy_alt c f s'
+          | None => []
+          end
+      end
+  end.
+
+Definition sched1_alt : list (nat * list nat) :=
+  Eval vm_compute in greedy_alt c0 200 (init c0 empty_env zero 0).
+
+Lemma run1_alt_summary :
+  existsb (fun x => Nat.eqb (fst x) 0 && Nat.eqb (length (snd x)) 1) sched1_alt = true
+  /\ match run c0 (init c0 empty_env zero 0) sched1_alt with
+     | Some s => mp s = MReturned
+                 /\ map (fun t => est (env s t)) [0; 1; 2] = [Some DONE; Some DONE; Some DONE]
+                 /\ map (started s) [0; 1; 2] = [1; 1; 1]
+     | None => False
+     end.
+Proof. vm_compute. auto. Qed.
+
 (* ---------- a reachable state with a worker about to start task 1 (hypotheses of C01) ---------- *)
 Fixpoint starting (s : state) (t : nat) (ws : list nat) : bool :=
   match ws with
